@@ -53,7 +53,7 @@ class C11(InterpProp):
             "action events of the simulated UMIM client; executed live once (twin A; serialisation is also attempted after every step) and then once per (cut point, fault) with fault in "
             "{restore, age 5.1 s / 60 s / 1 h, age+restore}. evaluations = executions; non-trivial = faulted executions whose cut state held >= 1 finished flow instance or a non-string variable; "
             "distinct = distinct (cut state signature, fault kind)")
-    expected_probes = ["api_turn_boundaries_restored", "api_aged_between_turns", "cut_restored", "cut_aged", "cleanup_removed_flows_in_twin_b", "state_held_regex", "state_held_set", "state_held_reference", "cut_with_action_in_flight"]
+    expected_probes = ["api_turn_boundaries_restored", "api_aged_between_turns", "cut_restored", "cut_aged", "cleanup_removed_flows_in_live_run", "cleanup_removed_flows_in_twin_b", "state_held_regex", "state_held_set", "state_held_reference", "cut_with_action_in_flight"]
     exhaustive_parts = ["every cut point of every sampled history (restore fault); ageing faults at every cut in the thorough tier, at a seeded third of the cuts in quick"]
     quick_runs = 240
     thorough_runs = 12000
@@ -67,7 +67,16 @@ class C11(InterpProp):
         fam = os.environ.get("C11_FAMILY")  # development aid: force one family
         if fam == "api" or (fam is None and d.chance(0.2, "family-api")):
             return gen_api_scenario(d, tier)
-        sc = gen_interp_scenario(d, with_faults=d.chance(0.3, "wf"), max_deliveries=12, rich_values=True)
+        shape = d.weighted([("general", 5), ("same-event-race", 2), ("kinship", 2)], "shape")
+        if shape == "kinship":
+            # relatives competing for identical (shared) actions: what the clean-up may discard depends on who still uses what
+            prog, deliveries = G.gen_kinship_competition(d, shared_bias=True)
+            deliveries = deliveries + G.gen_deliveries(d, d.randint(1, 4, "kextra"))
+            # "late": the Finished event of an action arrives 30 s after its start - long after the flows that ended in between are old
+            sc = {"program": prog, "deliveries": deliveries, "client": {"seed": d.randint(0, 1 << 30, "cseed"), "faults": ["late"] if d.chance(0.7, "klate") else [], "fault_bias": 8},
+                  "tie_seed": d.randint(0, 1 << 30, "tseed"), "gap_seed": d.randint(0, 1 << 30, "gseed"), "flavour": "kinship_competition"}
+        else:
+            sc = gen_interp_scenario(d, with_faults=d.chance(0.3, "wf"), max_deliveries=12, rich_values=True, few_events=(shape == "same-event-race"))
         sc["cuts"] = "enumerate"
         sc["age_every"] = 3 if tier == "quick" else 1
         sc["cut_seed"] = d.randint(0, 1 << 30, "cutseed")
@@ -143,6 +152,29 @@ class C11(InterpProp):
         for (what, tname, detail), k in sorted(ser_fail.items()):
             out.violate(what, "%s:%s" % (tname, detail), "after step %d of the live run: %s %s: %s" % (k, what, tname, detail), pin={"cuts": [[k, "restore"]]})
         n = len(live)
+        # reference twin: the same schedule under a clock that never advances for the interpreter - nothing is ever discarded.
+        # The live run above discards whatever its own gaps (late action events, long pauses between user events) make old enough;
+        # the property says that this never changes later behaviour.
+        frozen = dict(sc)
+        frozen["frozen_clock"] = True
+        try:
+            ref, resR = self._run(frozen)
+        except control.SimControl:
+            raise
+        except Exception as e:
+            ref, resR = None, None
+        out.evaluations += 1
+        if ref is not None and not resR.error:
+            if len(resA.interp.state.flow_states) < len(resR.interp.state.flow_states):
+                out.probe("cleanup_removed_flows_in_live_run")
+            for i in range(max(len(live), len(ref))):
+                a = ref[i] if i < len(ref) else None
+                b = live[i] if i < len(live) else None
+                if a != b:
+                    out.violate("behaviour-differs", "age:natural-gaps:%s" % _diff_kind(a, b),
+                                "the run whose own pauses let the clean-up discard old flow instances differs from the same run under a frozen clock (nothing discarded): at step %d the reference emitted %s for event %s, the live run emitted %s"
+                                % (i + 1, a[1] if a else None, a[0] if a else None, b[1] if b else None), pin={"cuts": []})
+                    break
         if sc["cuts"] == "enumerate":
             from ..kernel.draws import Draws
 
